@@ -202,6 +202,24 @@ func parseSerialDump(text string) (d ParseDump) {
 	return buildParseDump(rs, bs, es)
 }
 
+var scratchCounter int
+
+// mkScratch creates a scratch directory whose path has a fixed length, so that nothing
+// derived from path lengths (file sizes, cut positions of torn writes) varies between runs.
+func mkScratch(kind string) (string, error) {
+	for {
+		scratchCounter++
+		p := fmt.Sprintf("%s/verif-%s-%07d-%06d", scratchBase(), kind, os.Getpid()%10000000, scratchCounter%1000000)
+		err := os.Mkdir(p, 0o700)
+		if err == nil {
+			return p, nil
+		}
+		if !os.IsExist(err) {
+			return "", err
+		}
+	}
+}
+
 func scratchBase() string {
 	if v := os.Getenv("VERIF_SCRATCH"); v != "" {
 		return v
@@ -210,4 +228,19 @@ func scratchBase() string {
 		return "/dev/shm"
 	}
 	return os.TempDir()
+}
+
+// normRoot replaces the scratch root by $ROOT, including a truncated occurrence at the very
+// end (what a torn write leaves), so that hashes do not depend on the scratch directory name.
+func normRoot(s, root string) string {
+	if root == "" {
+		return s
+	}
+	s = strings.ReplaceAll(s, root, "$ROOT")
+	for n := len(root) - 1; n >= 8; n-- {
+		if strings.HasSuffix(s, root[:n]) {
+			return s[:len(s)-n] + fmt.Sprintf("$ROOT[:%d]", n)
+		}
+	}
+	return s
 }
